@@ -209,6 +209,14 @@ def do_replay(mod, pid, path):
     from .harness import replay as _replay
     with open(path) as fh:
         rp = json.load(fh)
+    if hasattr(mod, "custom_replay"):
+        bad, info = mod.custom_replay(rp)
+        print(json.dumps(info, default=str)[:2000])
+        if bad:
+            print(f"VIOLATION property={pid} replay={path}")
+            return 1
+        print("replay: not reproduced on the current tree")
+        return 0
     h = mod.get_harness(rp["harness"], rp.get("tier", "quick"))
     if rp.get("detail") and not rp.get("replay"):
         try:
